@@ -277,8 +277,13 @@ func driveAdapter(t *testing.T, in, out string, seed int64) {
 				case "votew":
 					contract, target = "gov", govAddr
 					opts := []govcontract.GovOptionWeight{{Option: uint32(num(st["opt"])), Weight: 100}}
-					if num(st["opt"]) == 12 {
+					switch num(st["opt"]) {
+					case 12:
 						opts = []govcontract.GovOptionWeight{{Option: 1, Weight: 50}, {Option: 2, Weight: 50}}
+					case 31: // a single option whose weight is not the whole
+						opts = []govcontract.GovOptionWeight{{Option: 1, Weight: 30}}
+					case 32:
+						opts = []govcontract.GovOptionWeight{{Option: 2, Weight: 250}}
 					}
 					data = mustPack(govcontract.GovContract.ABI, "vote0", uint64(1), opts)
 					eventName, eventArgs = "VotedWeighted", []interface{}{eoa.Eth, uint64(1), opts}
@@ -309,6 +314,12 @@ func driveAdapter(t *testing.T, in, out string, seed int64) {
 				}
 				d1 := mustPack(govcontract.GovContract.ABI, "vote", prop, uint32(num(st["opt"])))
 				d2 := mustPack(govcontract.GovContract.ABI, "vote", uint64(1), uint32(num(st["opt2"])))
+				if str(st["kind2"]) == "weighted" {
+					// the second call is the weighted vote: two kinds of event in one receipt.  The helper splits its call data in
+					// two halves, so the first (plain) call is padded with zero bytes, which the ABI decoder ignores
+					d2 = mustPack(govcontract.GovContract.ABI, "vote0", uint64(1), []govcontract.GovOptionWeight{{Option: uint32(num(st["opt2"])), Weight: 100}})
+					d1 = append(d1, make([]byte, len(d2)-len(d1))...)
+				}
 				to := w.Helpers["double"]["gov"]
 				r := c.DeliverEth(eoa, &to, nil, append(d1, d2...))
 				line["res"], line["msg"] = resOf(r), clip(r.Log+r.VMError)
